@@ -437,7 +437,29 @@ func runCtor(c Ctor) (vk.Outcome, error) {
 		} else {
 			s = stream.FromIterator[int](sk.NewRecIter(c.Items))
 		}
-		if _, err := s.Next(cctx); err == nil && c.Kind == "FromIterator" {
+		if c.Kind == "Chan" {
+			// a consumer that mixes calls under an ended context with live ones: a call either hands out the
+			// next value or fails with the context's error and costs nothing - no value may fall between them
+			got := []int{}
+			for i := 0; i < 4*len(c.Items)+8; i++ {
+				ctx := bg
+				if i%3 != 2 {
+					ctx = cctx
+				}
+				v, err := s.Next(ctx)
+				if err == nil {
+					got = append(got, v)
+				} else if err == stream.End {
+					break
+				} else if ctx == bg || err != context.Canceled {
+					return out, vk.Violf("wrong-output", "stream.Chan: Next returned %v (context ended: %v)", err, ctx != bg)
+				}
+			}
+			if !reflect.DeepEqual(got, append([]int{}, c.Items...)) {
+				return out, vk.Violf("lost-on-expired-call", "stream.Chan over %v read with a mix of ended-context and live calls yielded %v", c.Items, got)
+			}
+			s.Close()
+		} else if _, err := s.Next(cctx); err == nil {
 			return out, vk.Violf("ctx-ignored", "stream.FromIterator: Next with a cancelled context returned an item")
 		}
 		if c.Kind == "FromIterator" {
